@@ -102,6 +102,11 @@ pub enum Surgery {
     /// Semantically the same font; the table is larger than 64 KiB and object caches keyed by a
     /// truncated or relative offset collide.
     ExtensionRelocate { table: String, a: u16, b: u16 },
+    /// Replace `cmap` by a single Macintosh Roman (1, 0) format 6 subtable covering codes
+    /// 0x20..0x200 that cycles through `glyphs`: codes above 0xFF fold onto the same Mac Roman
+    /// characters as their low byte but name other glyphs (no corpus font has a non-Unicode
+    /// cmap with colliding codes).
+    MacRomanCmap { glyphs: Vec<u16> },
     /// Re-pack `hmtx` with only `num_h_metrics` long metrics (glyphs after that take the last
     /// advance and keep their side bearing) and update `hhea`. Every corpus CFF2 font and most
     /// others have numberOfHMetrics == numGlyphs, which hides the compact form from the writers.
